@@ -132,7 +132,7 @@ class ExprMixin:
         if dcls is None:
             raise OutsideSubset('no model for field %s.%s' % (cls, name))
         try:
-            v = self.coerce(st, val, fty)
+            v = self.coerce_checked(st, val, fty, node, 'field-' + name)
         except TypeMismatch as e:
             self.oblige(st, False, 'type', 'field-%s' % name, node=node,
                         info={'claim': 'value stored in %s.%s has type %s: %s' % (cls, name, fty, e)})
@@ -176,6 +176,20 @@ class ExprMixin:
             self.write_field(st, r, ty.cls, 'items', coerce(sv, TMap(k, v), self.classes))
             return r
         return coerce(sv, ty, self.classes)
+
+    def coerce_checked(self, st, sv, ty, node, what):
+        """coerce; an Optional used where a plain value is required becomes a
+        safety obligation (it would be a TypeError / AttributeError downstream)."""
+        try:
+            return self.coerce(st, sv, ty)
+        except TypeMismatch:
+            if isinstance(sv.ty, TOpt) and not isinstance(ty, TOpt):
+                inner = unbox(sv.ty.inner, sv.ty.val(sv.t))
+                r = self.coerce(st, inner, ty)
+                self.oblige(st, z3.Not(sv.ty.is_none(sv.t)), 'safety', 'None-' + what, node=node,
+                            info={'claim': '%s is not None where a %s is required' % (what, ty)})
+                return r
+            raise
 
     def list_elem(self, cls):
         _, fty = self.classes.field(cls, 'items')
